@@ -75,20 +75,30 @@ def msg_class(msg):
     return m.group(1).strip()[:60] if m else msg[:60]
 
 
-def handle_bad(ctx, binp, drv, cases, bad, max_reports=3):
+def handle_bad(ctx, binp, drv, cases, bad, max_reports=2):
     by_id = {h.split()[0]: (h, ops) for h, ops in cases}
     seen = set()
+    retries = {}
+    # enumerated probes first: their op lists are short
+    bad = sorted(bad, key=lambda b: (0 if b[0][:1] in "pc" else 1))
     for cid, msg in bad:
         kind = "prop" if "kind=prop" in msg else "corr"
         cls = (kind, msg_class(msg))
-        if cls in seen or len(seen) >= max_reports:
+        if cls in seen or len(seen) >= max_reports or retries.get(cls, 0) >= 4:
             continue
-        seen.add(cls)
         header, ops = by_id[cid]
         small, smsg = vf.shrink_case(
-            ctx, binp, drv, header, ops, kind, env=_env(ctx), budget=100,
+            ctx, binp, drv, header, ops, kind, env=_env(ctx), budget=60,
             protect=lambda o: o.startswith(("MNEW", "FINAL")),
             accept=lambda m2, c=cls: msg_class(m2) == c[1])
+        if smsg is None and cls[1].startswith("manager lifetime"):
+            # The only timing-dependent observable (thread start / exit under load): it has to
+            # show again when the case runs alone, otherwise it is logged, not reported.
+            vf.log(f"case {cid}: '{msg[:120]}' did not reproduce when the case was re-run alone; not reported")
+            ctx.add_stat("unreproduced_thread_observations", 1)
+            retries[cls] = retries.get(cls, 0) + 1
+            continue
+        seen.add(cls)
         smsg = smsg or msg
         hk = " ".join(t for t in header.split()[1:] if t.split("=")[0] in ("kind",))
         body = ";".join(small) if len(small) <= 30 else f"case-{cid}"
